@@ -514,3 +514,10 @@ impl Lowerer<'_, '_> {
         Some(ty.eq_fn())
     }
 }
+
+/// Verification hook (C02): the equality function the lowerer generates for
+/// a type, without lowering a program.
+#[cfg(feature = "verif-hooks")]
+pub fn verif_generate_eq(ctx: &mut LowerCtx<'_>, ty: TyRef) -> Item {
+    Lowerer::generate_eq(ctx, ty)
+}
